@@ -101,8 +101,10 @@ def noncanon_small(rng, e=None):
 
 def noncanon_large(rng, e=None):
     """large-coefficient form (G0G1 = 11, not Inf/NaN): value zero, exponent field two bits lower; e = wanted exponent (or random)"""
-    if e is None: return (rng.randint(0, 1) << 127) | (3 << 125) | (rng.randint(0, 2) << 123) | rng.getrandbits(123)
-    return (rng.randint(0, 1) << 127) | (3 << 125) | ((e + BIAS) << 111) | rng.getrandbits(111)
+    k = rng.random()
+    low = 0 if k < 0.2 else rng.getrandbits(64) << 47 if k < 0.3 else rng.getrandbits(47) if k < 0.4 else rng.getrandbits(111)   # trailing bits: all zero / low word zero / small / any
+    if e is None: return (rng.randint(0, 1) << 127) | (3 << 125) | (rng.randint(0, 2) << 123) | (rng.getrandbits(12) << 111) | low
+    return (rng.randint(0, 1) << 127) | (3 << 125) | ((e + BIAS) << 111) | low
 
 
 def infinity(rng):
@@ -114,7 +116,8 @@ NAN_PAYLOADS = [0, 1, T33 - 2, T33 - 1, T33, T33 + 1, (1 << 110) - 1]
 
 def nan(rng, sig=None):
     s = rng.randint(0, 1); sig = rng.randint(0, 1) if sig is None else sig; kk = rng.random()
-    pay = rng.choice(NAN_PAYLOADS) if kk < 0.5 else rng.randint(0, T33 - 1) if kk < 0.8 else rng.randint(T33, (1 << 110) - 1)
+    pay = rng.choice(NAN_PAYLOADS) if kk < 0.5 else rng.randint(0, T33 - 1) if kk < 0.75 else rng.randint(T33, (1 << 110) - 1) if kk < 0.9 else \
+          min((1 << 110) - 1, T33 + rng.choice([rng.getrandbits(68), rng.randint(1, 16) << 64, rng.getrandbits(20)])) if kk < 0.95 else T33 - 1 - rng.choice([rng.getrandbits(68), rng.getrandbits(20)])   # just above / below the largest canonical payload
     res = rng.getrandbits(11) if rng.random() < 0.3 else 0
     return (s << 127) | (0x1f << 122) | (sig << 121) | (res << 110) | pay
 
